@@ -175,6 +175,38 @@ def option_probes(rep, thorough):
         what = 'COPY TO / COPY FROM with %s does not reproduce the table: rows lost or changed %s, rows appearing %s' % (opts, json.dumps(missing)[:200], json.dumps(extra)[:200])
         outc = rep.counterexample(key, what[:500], {'stmts': stmts, 'exported': a['rows'], 'imported': b.get('rows') if b else None}, True)
         rep.obligation(outc == 'known')
+    # every column type COPY can carry (one NULL per column) and a table larger than one chunk
+    wd = scratch_dir('csvopt')
+    f1, f2 = os.path.join(wd, 'types.csv'), os.path.join(wd, 'bulk.csv')
+    tys = 'a smallint, b int, c bigint, d boolean, e varchar, f date, g double, h decimal(10,2)'
+    rows = ["(1, 2, 3000000000, true, 'x', date '2024-02-29', 1.5, 12.34)", "(-32768, -2147483648, -3, false, 'a b', date '1970-01-01', -0.25, -0.01)",
+            '(NULL, 1, 1, true, NULL, NULL, 2.0, NULL)', "(5, NULL, NULL, NULL, 'z', date '9999-12-31', NULL, 0.00)"]
+    bulk = ', '.join("(%d, 's%d')" % (i, i % 97) for i in range(2500))
+    stmts = ['create table t(%s)' % tys, 'create table u(%s)' % tys, 'insert into t values ' + ', '.join(rows), "copy t to '%s'" % f1, "copy u from '%s'" % f1,
+             'select * from t', 'select * from u', 'create table b1(k int, s varchar)', 'create table b2(k int, s varchar)', 'insert into b1 values ' + bulk,
+             "copy b1 to '%s'" % f2, "copy b2 from '%s'" % f2, 'select count(*), sum(k), count(distinct s) from b1', 'select count(*), sum(k), count(distinct s) from b2',
+             'select count(*) from b1, b2 where b1.k = b2.k and b1.s = b2.s']
+    out, rc, err = rl('sql', {'engine': 'mem', 'stmts': stmts}, timeout=300)
+    shutil.rmtree(wd, ignore_errors=True)
+    res = {o['sql']: o for o in out if 'sql' in o}
+    def rows_of(sql):
+        o = res.get(sql)
+        return o['rows'] if o and o.get('ok') and not o.get('panicked') else 'FAILS: %s' % (((o or {}).get('err')) or 'panic / not run')
+    n += 2
+    a_, b_ = rows_of('select * from t'), rows_of('select * from u')
+    if isinstance(a_, list) and isinstance(b_, list) and sorted(map(json.dumps, a_)) == sorted(map(json.dumps, b_)):
+        ok += 1
+    else:
+        imp = res.get(stmts[4]) or {}
+        what = 'COPY round trip of a table with columns (%s): exported %s, imported %s%s' % (tys, json.dumps(a_)[:200], json.dumps(b_)[:200], '' if imp.get('ok') else '; import fails: %s' % imp.get('err'))
+        outc = rep.counterexample('csv:types', what[:600], {'stmts': stmts[:7]}, True)
+        rep.obligation(outc == 'known')
+    c1, c2, cj = rows_of(stmts[12]), rows_of(stmts[13]), rows_of(stmts[14])
+    if c1 == c2 and cj == [['2500']]:
+        ok += 1
+    else:
+        outc = rep.counterexample('csv:bulk', 'COPY round trip of 2500 rows (several chunks): exported %s, imported %s, rows found again %s' % (c1, c2, cj), {'stmts': [x[:100] for x in stmts[7:]]}, True)
+        rep.obligation(outc == 'known')
     rep.cov['csv_option_probes'] = {'combinations': n, 'round_trips_exact': ok, 'note': 'end-to-end probes of the csv crate + option plumbing (not a solver decision)'}
 
 
